@@ -343,6 +343,19 @@ var lineKinds = []lineKind{
 	{"target-unpadded-base64", true, func(r *vh.Rand, t, o keys.DHPublicKey) string {
 		return keys.DHPublicKeyPrefix + base64.RawStdEncoding.EncodeToString(t[:])
 	}},
+	{"two-near-misses", false, func(r *vh.Rand, t, o keys.DHPublicKey) string {
+		// two listed keys that each differ from the target in one bit, at different places
+		a, b := t, t
+		i := r.Intn(32)
+		j := (i + 1 + r.Intn(31)) % 32
+		a[i] ^= 1 << r.Intn(8)
+		b[j] ^= 1 << r.Intn(8)
+		return a.String() + "\n" + b.String()
+	}},
+	{"target-after-a-long-run-of-blanks", true, func(r *vh.Rand, t, o keys.DHPublicKey) string {
+		// one (malformed) line: another key, blanks up to and beyond a 4096-byte buffer, the target
+		return o.String() + strings.Repeat(" ", r.Pick(4000, 4043, 4044, 4096, 4100, 9000)) + t.String()
+	}},
 	{"target-bare-base64", true, func(r *vh.Rand, t, o keys.DHPublicKey) string { return b64(t) }},
 	{"target-prefix-twice", true, func(r *vh.Rand, t, o keys.DHPublicKey) string {
 		return keys.DHPublicKeyPrefix + keys.DHPublicKeyPrefix + b64(t)
